@@ -24,7 +24,7 @@ TInit == TLCSet(42, 1) /\ l = 1 /\ Init
 
 E == Rec[l]
 TwSet == {E.tw[i] : i \in 1..Len(E.tw)}
-Consume == l <= Len(Rec) /\ l' = l + 1 /\ Reach(l + 1)
+Consume == l <= Len(Rec) /\ l' = l + 1
 Same == UNCHANGED vars
 
 TReset ==
@@ -104,7 +104,8 @@ TSilent ==
           /\ ~\E i \in 1..Len(E.nw) : ws[E.nw[i]] \in {"waitU", "waitT"}
           /\ FireSet({w \in TwSet : ws[w] = "waitT"})
 
-TNext == TReset \/ TDispatch \/ TStart \/ TTake \/ TWait \/ TWake \/ TFinish \/ TDrop \/ TSilent
+\* the register is advanced only by a step that was actually taken (all of its guards held)
+TNext == (TReset \/ TDispatch \/ TStart \/ TTake \/ TWait \/ TWake \/ TFinish \/ TDrop \/ TSilent) /\ Reach(l')
 TSpec == TInit /\ [][TNext]_tvars
 
 Accepted == PrintT(<<"MECH", Len(Rec), TLCGet(42)>>)
